@@ -366,6 +366,20 @@ func c12Run(c *engine.Ctx, in []byte, args map[string]string) {
 		}
 		// observers must not have changed the state
 		checkKey(b, s, h, "after observers")
+		// Restore gives the borrowed byte back and changes nothing else: what does not look at the terminator reads as before
+		{
+			rb := build(h)
+			rb.z.Restore()
+			bs2, lx2 := rb.z.Bytes(), rb.z.Lexeme()
+			obs("after-Restore", rb.z.Pos() == s.pos-s.start && rb.z.Offset() == s.pos && bytes.Equal(bs2, D) && bytes.Equal(lx2, D[s.start:s.pos]),
+				"Restore(): Pos()=%d Offset()=%d Bytes()=%q Lexeme()=%q want %d %d %q %q", rb.z.Pos(), rb.z.Offset(), bs2, lx2, s.pos-s.start, s.pos, D, D[s.start:s.pos])
+			if ln, ok := rb.z.(interface{ Len() int }); ok {
+				obs("after-Restore", ln.Len() == L, "Restore(): Len()=%d want %d", ln.Len(), L)
+			}
+			if s.pos < L {
+				obs("after-Restore", rb.z.Err() == wantErr(0) && rb.z.Peek(0) == D[s.pos], "Restore(): Err()=%v Peek(0)=%#x want %v %#x", rb.z.Err(), rb.z.Peek(0), wantErr(0), D[s.pos])
+			}
+		}
 		c.Count("transitions", int64(nobs))
 
 		// mutators
@@ -466,6 +480,34 @@ func c12Run(c *engine.Ctx, in []byte, args map[string]string) {
 	c.Count("max:states_per_input", int64(len(queue)))
 }
 
+// c12TwoAlive: an object made from a reader owns its bytes: making a second one (from other data of another length) does
+// not disturb the first
+func c12TwoAlive(c *engine.Ctx, in []byte, args map[string]string) {
+	other := append([]byte("XYZW"), in...)
+	for i := range other {
+		other[i] ^= 0x15
+	}
+	for _, kind := range []string{"input", "lexer"} {
+		for _, chunk := range []int{1, 3, 1 << 20} {
+			mk := func(d []byte) cursor {
+				r := &failReader{data: d, chunk: chunk, failAt: -1}
+				if kind == "input" {
+					return parse.NewInput(r)
+				}
+				return buffer.NewLexer(r)
+			}
+			a := mk(in)
+			bb := mk(other)
+			cc := mk(in[:len(in)/2])
+			c.Count("transitions", 3)
+			if !bytes.Equal(a.Bytes(), in) || !bytes.Equal(bb.Bytes(), other) || !bytes.Equal(cc.Bytes(), in[:len(in)/2]) || a.Peek(len(in)) != 0 || bb.Peek(len(other)) != 0 {
+				c.Fail("objects-share-storage", fmt.Sprintf("%s made from a reader of %q, then two more from readers of %q and %q: the three read %q, %q, %q", kind, in, other, in[:len(in)/2], a.Bytes(), bb.Bytes(), cc.Bytes()))
+				return
+			}
+		}
+	}
+}
+
 // c12Borrow: entry points that build an Input over the caller's bytes themselves (the caller cannot call Restore)
 // must leave the caller's array as they found it, including the byte behind the data that is borrowed for the terminator.
 var c12Borrowers = []string{"Position", "NewError", "css.IsIdent", "css.IsURLUnquoted"}
@@ -503,6 +545,7 @@ func c12Borrow(c *engine.Ctx, in []byte, args map[string]string) {
 func c12Setup(c *engine.Ctx) {
 	c.Register(&engine.Space{Name: "cursor", Run: c12Run})
 	c.Register(&engine.Space{Name: "borrow", Run: c12Borrow})
+	c.Register(&engine.Space{Name: "two-alive", Run: c12TwoAlive})
 }
 
 var c12Atoms = engine.Atoms("a", "\x00", "\x80", "\xa9", "\xc3", "\xe2", "\xf0", "é", "\u2028", "😀", "\u0101", "\u07ff")
@@ -533,7 +576,8 @@ func c12Work(c *engine.Ctx) {
 			}
 		}
 		c.Exec(c.SpaceByName("borrow"), in, nil)
-		c.Count("exec", 1)
+		c.Exec(c.SpaceByName("two-alive"), in, nil)
+		c.Count("exec", 2)
 		if len(idx) == maxLen && idx[0] == 7 && idx[maxLen-1] == 5 {
 			c.Sample(fmt.Sprintf("input %q: fix-point over all (start,pos) states × 15 constructors × {Input,Lexer}", in))
 		}
@@ -556,7 +600,7 @@ func c12Finish(c *engine.Ctx, cov map[string]interface{}) string {
 func init() {
 	register(&engine.Check{
 		ID: "C12", Level: "model_checking",
-		Rule:        "every byte string of ≤k atoms over {a,NUL,0x80,0xA9,0xC3,0xE2,0xF0,é,U+2028,😀,U+0101,U+07FF} × 15 constructors × {parse.Input, buffer.Lexer}; per case a breadth-first search to a fix-point over all reachable (start,pos) states of the real object (successor = fresh object + shortest history + one operation), every observer and mutator compared with a reference cursor (PeekErr also up to 3 bytes beyond the end); per input also every entry point that builds an Input over caller bytes itself (Position and NewError at every offset in [-1,len+1], css.IsIdent, css.IsURLUnquoted) with three kinds of bytes behind the data in the same array, which must be unchanged afterwards; distinct_nontrivial = canonical atom sequences of ≥2 atoms on non-failing constructors",
+		Rule:        "every byte string of ≤k atoms over {a,NUL,0x80,0xA9,0xC3,0xE2,0xF0,é,U+2028,😀,U+0101,U+07FF} × 15 constructors × {parse.Input, buffer.Lexer}; per case a breadth-first search to a fix-point over all reachable (start,pos) states of the real object (successor = fresh object + shortest history + one operation), every observer and mutator compared with a reference cursor (PeekErr also up to 3 bytes beyond the end); per input also every entry point that builds an Input over caller bytes itself (Position and NewError at every offset in [-1,len+1], css.IsIdent, css.IsURLUnquoted) with three kinds of bytes behind the data in the same array, which must be unchanged afterwards; in every state Restore() must leave Pos, Offset, Len, Bytes, Lexeme, Err and Peek as they were; three objects made from readers one after the other must keep their own bytes; distinct_nontrivial = canonical atom sequences of ≥2 atoms on non-failing constructors",
 		Assumptions: []string{"operations respect the documented contract: position never moved past the terminator or before start", "private fields start,pos,buf,err are read by reflection to show that equal model states mean equal implementation states (justifies the fix-point)"},
 		Setup:       c12Setup, Work: c12Work, Finish: c12Finish,
 	})
